@@ -27,6 +27,7 @@ from vsim import tagged
 CTX = {"Execution": {"Id": "arn:x", "Input": {"k": 1}}, "State": {"Name": "S", "EnteredTime": "t"},
        "Map": {"Item": {"Index": 0, "Value": "v"}}}
 OTHER_SEED = "4242"
+NO_CTX = {}                 # engine runs use the engine's own context object (cases with $$ paths are not sent there)
 ALPHA = list(",'\\(){}[]^ ab-1")
 CURATED_STR = ["", "a", "a,b", "a)b", "(a", "it's", "a\\b", "{}", "a{b}", "[x]", "^", "^a", "a-c", "a b",
                "x,y z", "'", "\\", "a\\", "),(", "b,a,b", "a(b)c", "1", " a ", "a]b", "a^b-c"]
@@ -279,9 +280,21 @@ def canon(v):
     return json.dumps(v, sort_keys=True)
 
 
+_CANON = {}
+
+
+def canon_cached(v):
+    """canonical text of an input/context object that is shared by many cases (never mutated here)"""
+    k = id(v)
+    if k not in _CANON:
+        _CANON[k] = (v, canon(v), E(v))
+    return _CANON[k]
+
+
 def run_real(sp, real_tpl, inp, ctx):
     """-> (outcome for TLC, python value or None, unchanged?)"""
-    t0, i0, c0 = copy.deepcopy(real_tpl), copy.deepcopy(inp), copy.deepcopy(ctx)
+    ci, cc, ct = canon_cached(inp)[1], canon_cached(ctx)[1], canon(real_tpl)
+    t0, i0, c0 = json.loads(ct), json.loads(ci), json.loads(cc)       # fresh copies for the real code
     try:
         v = sp.evaluate_payload_template(i0, c0, t0)
     except RecursionError:
@@ -290,13 +303,12 @@ def run_real(sp, real_tpl, inp, ctx):
         out, val = {"kind": "exc", "cls": type(ex).__name__}, None
     else:
         try:
-            json.dumps(v)
-            val = copy.deepcopy(v)
+            val = json.loads(json.dumps(v))
             out = {"kind": "value", "v": E(val)}
         except (TypeError, ValueError, RecursionError):
             out, val = {"kind": "notjson"}, None
     try:
-        same = canon(t0) == canon(real_tpl) and canon(i0) == canon(inp) and canon(c0) == canon(ctx)
+        same = canon(t0) == ct and canon(i0) == ci and canon(c0) == cc
     except (TypeError, ValueError):
         same = False
     return out, val, same
@@ -312,10 +324,10 @@ def child_main(path):
     import asl_workflow_engine.state_engine_paths as sp
     sp.uuid = real_uuid
     with open(path) as f:
-        cases = json.load(f)
+        doc = json.load(f)
     res = {}
-    for c in cases:
-        out, val, _same = run_real(sp, c["tpl"], c["input"], c["ctx"])
+    for c in doc["cases"]:
+        out, val, _same = run_real(sp, c["tpl"], doc["inputs"][c["i"]], doc["ctxs"][c["c"]])
         res[str(c["id"])] = key_of(out, val)
     with open(path + ".out", "w") as f:
         json.dump(res, f)
@@ -326,8 +338,17 @@ def start_other_seed(cases, workdir):
     """Start re-evaluating cases (dicts(id, tpl, input, ctx)) in a process under OTHER_SEED."""
     os.makedirs(workdir, exist_ok=True)
     p = os.path.join(workdir, "seedcases.json")
+    inputs, ctxs, iidx, cidx, rows = [], [], {}, {}, []
+    for c in cases:                      # the few distinct input/context objects are written once
+        if id(c["input"]) not in iidx:
+            iidx[id(c["input"])] = len(inputs)
+            inputs.append(c["input"])
+        if id(c["ctx"]) not in cidx:
+            cidx[id(c["ctx"])] = len(ctxs)
+            ctxs.append(c["ctx"])
+        rows.append({"id": c["id"], "tpl": c["tpl"], "i": iidx[id(c["input"])], "c": cidx[id(c["ctx"])]})
     with open(p, "w") as f:
-        json.dump(cases, f)
+        json.dump({"inputs": inputs, "ctxs": ctxs, "cases": rows}, f)
     env = dict(os.environ, PYTHONHASHSEED=OTHER_SEED, LOG_LEVEL="CRITICAL", PYTHONDONTWRITEBYTECODE="1")
     proc = subprocess.Popen([sys.executable, os.path.abspath(__file__), "--child", p], env=env,
                             stdout=subprocess.PIPE, stderr=subprocess.STDOUT, text=True)
@@ -710,7 +731,7 @@ def build_cases(thorough, rng):
         expr_case(e, inputs[0])
     for e in exhaustive_exprs(thorough, rng):
         expr_case(e, inputs[0])
-    n_rand = 70000 if thorough else 2300
+    n_rand = 66000 if thorough else 2300
     for _ in range(n_rand):
         expr_case(g.anycall(rng.choice([0, 1, 1, 2, 2, 3])))
     # ".$": "$" and other paths at the top of a template, on ordinary and on odd inputs (finding K1)
@@ -718,7 +739,7 @@ def build_cases(thorough, rng):
         for p in (path("root"), path("steps", "a"), path("ctxroot"), path("ctx", "State", "Name")):
             expr_case(copy.deepcopy(p), inp, kind="template")
         expr_case(call("States.Array", path("root")), inp, kind="template")
-    n_tpl = 26000 if thorough else 1950
+    n_tpl = 24000 if thorough else 1950
     for j in range(n_tpl):
         tree = template_tree(g, rng.randrange(0, 5 if thorough else 4), rng, odd=0.04)
         if not tree:
@@ -738,7 +759,7 @@ def uses_ctx(tla_tpl):
 
 def make_obs(oid, kind, tla_tpl, inp, ctx, out, val, same, seedsame, engine):
     leak = bool(out["kind"] == "value" and LEAK.search(json.dumps(val)))
-    return {"id": oid, "kind": kind, "engine": engine, "tpl": tla_tpl, "input": E(inp), "ctx": E(ctx),
+    return {"id": oid, "kind": kind, "engine": engine, "tpl": tla_tpl, "input": canon_cached(inp)[2], "ctx": canon_cached(ctx)[2],
             "facts": facts_for(tla_tpl, inp, ctx, val), "out": out, "same": same, "seedsame": seedsame, "leak": leak}
 
 
@@ -869,9 +890,9 @@ def run_check(v, sp, t, thorough):
             v.machinery_failure("engine run failed: %s: %s" % (type(ex).__name__, str(ex)[:300]))
             break
         n_engine += 1
-        o = make_obs(oid, c["kind"], tla_tpl, c["input"], {}, out, val, True, True, True)
+        o = make_obs(oid, c["kind"], tla_tpl, c["input"], NO_CTX, out, val, True, True, True)
         obs.append(o)
-        info[oid] = {"obs": o, "real": real, "input": c["input"], "ctx": {}, "shown": shown(out, val)}
+        info[oid] = {"obs": o, "real": real, "input": c["input"], "ctx": NO_CTX, "shown": shown(out, val)}
     phase("engine_runs")
     stats = judge_and_report(v, obs, info, work, {})
     if stats is None:
